@@ -13,7 +13,7 @@ import shutil
 
 from hypothesis import strategies as st
 
-from vf import pins
+from vf import cli, pins
 from vf.core import VERIF_DIR, HarnessError, HypPart, Oracle
 from vf.gen import dbenum
 from vf.gen import keys as K
@@ -25,7 +25,8 @@ LEVEL = "exploration"
 TECHNIQUE = (
     "Hypothesis-generated HAB configurations (device table x flags x PKI x DCD/XMCD x CSF command set) built through "
     "HabContainer.load_from_config; the exported bytes are walked by an independent HAB4 image/CSF interpreter (own SRK-table "
-    "codec, asn1crypto CMS/X.509 parsing, own RSA/ECDSA verification, own AES-CCM) calibrated on CST-produced goldens"
+    "codec, asn1crypto CMS/X.509 parsing, own RSA/ECDSA verification, own AES-CCM) calibrated on CST-produced goldens; about one case "
+    "in six also through the real `nxpimage hab export` / `nxpimage hab parse` commands with the same walker / interpreter on their files"
 )
 LEVEL_TEXT = (
     "exploration: every generated image is (1) located by an independent IVT/boot-data/DCD/XMCD/CSF walker and compared with the "
@@ -49,7 +50,7 @@ ASSUMPTIONS = [
     "the DEK blob itself is produced on the device and is not part of the image; decryption uses the DEK file SPSDK read or wrote",
     "certificates and the SRK table are input material built with `cryptography` / spsdk's SrkTable; the table is additionally compared with an own encoder",
 ]
-FLOORS = {"flags:8": 0.08, "flags:c": 0.04, "flags:0": 0.012, "kt:rsa": 0.06, "kt:ec": 0.04, "dcd": 0.032, "xmcd": 0.006, "mode:family": 0.1,
+FLOORS = {"cli": 0.03, "flags:8": 0.08, "flags:c": 0.04, "flags:0": 0.012, "kt:rsa": 0.06, "kt:ec": 0.04, "dcd": 0.032, "xmcd": 0.006, "mode:family": 0.1,
           "nocak": 0.006, "dek:random": 0.004, "nonce:given": 0.008, "app:unaligned": 0.08}
 
 FIX = os.path.join(VERIF_DIR, "fixtures", "c07")
@@ -466,17 +467,25 @@ def _run(work: str, case, o: Oracle) -> None:
     shutil.rmtree(wd, ignore_errors=True)
     os.makedirs(wd, exist_ok=True)
     try:
-        _run_in(wd, case, o)
+        state: dict = {}
+        _run_in(wd, case, o, state)
+        if state.get("data") is not None and cli.selected(case, CLI_ONE_IN):
+            _cli_commands(wd, case, o, state)
     finally:
         shutil.rmtree(wd, ignore_errors=True)
 
 
-def _run_in(wd: str, case, o: Oracle) -> None:
+def _run_in(wd: str, case, o: Oracle, state: dict) -> None:
     from spsdk.image.hab.hab_container import HabContainer
     from spsdk.image.hab.segments import HabSegment
     from spsdk.utils.schema_validator import check_config
 
     b = _materialise(case, wd)
+    if cli.selected(case, CLI_ONE_IN):
+        import yaml
+
+        # the configuration as the user's file, taken before the library calls below get to see (and edit) the dictionary
+        state["yaml"] = yaml.safe_dump(b.cfg, sort_keys=False)
     flags = int(case["flags"])
     n = len(b.app)
     padded = b.app + bytes(-n % 16) if flags else b.app
@@ -572,38 +581,8 @@ def _run_in(wd: str, case, o: Oracle) -> None:
         b.dek = dek
 
     # ---- layout (independent walker against the inputs)
-    L = None
-    try:
-        L = H.Layout(data)
-    except H.HabFormatError as exc:
-        o.fail("layout", "format", str(exc))
-    if L is not None:
-        o.eq("layout", "ivt_self", L.self_ptr, b.start + b.ivt_offset)
-        o.eq("layout", "ivt_boot_data", L.boot_data_ptr, L.self_ptr + 0x20)
-        o.eq("layout", "ivt_entry", L.entry, b.reset)
-        o.eq("layout", "bdt_start", L.bdt_start, b.start)
-        o.eq("layout", "bdt_plugin", L.bdt_plugin, 0)
-        if b.dcd:
-            o.eq("layout", "ivt_dcd", L.dcd_ptr, L.self_ptr + 0x40)
-            o.eq("layout", "dcd_bytes", L.dcd_bytes, b.dcd)
-        else:
-            o.eq("layout", "ivt_dcd", L.dcd_ptr, 0)
-        if b.xmcd:
-            o.eq("layout", "xmcd_bytes", data[0x40 : 0x40 + len(b.xmcd)], b.xmcd)
-        if not flags:
-            o.eq("layout", "ivt_csf", L.csf_ptr, 0)
-            o.eq("layout", "app_bytes", data[app_off:], b.app)
-            o.eq("layout", "bdt_length", L.bdt_length, b.ivt_offset + len(data))
-        else:
-            o.check("layout", L.csf_off is not None, "ivt_csf", "authenticated image without CSF pointer")
-            if L.csf_off is not None:
-                o.check("layout", L.csf_off >= app_off + len(padded), "csf_overlaps_app", "CSF at %#x, application ends at %#x" % (L.csf_off, app_off + len(padded)))
-                o.check("layout", len(data) > L.csf_off, "csf_outside", "CSF pointer %#x beyond the image end %#x" % (L.csf_off, len(data)))
-                o.eq("layout", "bdt_length", L.bdt_length, b.ivt_offset + len(data) + (H.KEYBLOB_SPACE if flags == 0xC else 0))
-            if flags == 8:
-                o.eq("layout", "app_bytes", data[app_off : app_off + len(padded)], padded)
-            else:
-                o.check("layout", data[app_off : app_off + len(padded)] != padded, "app_not_encrypted", "application stored in plain text")
+    L = _layout(o, case, b, data)
+    state.update(b=b, data=data, padded=padded, app_off=app_off, own_table=own_table, own_fuses=own_fuses)
 
     # ---- round trip through HabContainer.parse
     with o.spsdk("roundtrip", "parse"):
@@ -675,7 +654,135 @@ def _run_in(wd: str, case, o: Oracle) -> None:
         return
 
     # ---- CSF interpretation
-    r = H.run_csf(L, b.dek)
+    _csf(o, case, b, L, data, b.dek, own_table, own_fuses, hab)
+
+
+# ------------------------------------------------------------------------------------------------ the real commands
+CLI_ONE_IN = 8  # share of the cases that also go through `nxpimage hab export` / `nxpimage hab parse` (pure function of the case;
+# the command loads every private key from its file again, which costs more than the rest of a case)
+
+
+def _cli_commands(wd: str, case, o: Oracle, state: dict) -> None:
+    """The configuration as a YAML file next to its input files, built by `nxpimage hab export -c <yaml> -o <file>`: the file is
+    judged by the same walker and CSF interpreter as the library-built image (with the DEK file the command left behind);
+    `nxpimage hab parse -b <file> -o <dir>` writes one file per segment holding the bytes of the image."""
+    b, data, padded, app_off = state["b"], state["data"], state["padded"], state["app_off"]
+    flags = int(case["flags"])
+    cfg_path = os.path.join(wd, "hab_cli.yaml")
+    with open(cfg_path, "w", encoding="utf-8") as f:
+        f.write(state["yaml"])
+    out = os.path.join(wd, "out_cli.bin")
+    cwd = os.path.join(wd, "cwd")
+    res = cli.run(o, "hab_export", ["hab", "export", "-c", cfg_path, "-o", out], cwd=cwd)
+    if res is None:
+        return
+    cdata = cli.read(o, "hab_export", out)
+    if cdata is None:
+        return
+    co = cli.Scoped(o, "hab_export")
+    co.check("command", "Success." in res.output, "no_success_message", res.describe())
+    co.eq("twin", "length", len(cdata), len(data))
+    if not flags:
+        co.check("twin", cdata == data, "bytes", "unsigned image: the command's file differs from the image of the same calls made directly")
+    dek = b.dek
+    if flags == 0xC:
+        try:
+            with open(b.dek_file, "rb") as f:
+                dek = f.read()
+        except OSError:
+            dek = None
+        if not case["enc"]["reuse"]:
+            co.check("decrypt", dek is not None and len(dek) == int(case["enc"]["bits"]) // 8, "dek_file", "DEK file after the command: %r" % (None if dek is None else len(dek)))
+        else:
+            co.check("decrypt", dek == b.dek, "given_dek_file_changed", "the DEK file that was to be reused has been rewritten")
+    L = _layout(co, case, b, cdata)
+    if flags and L is not None and L.csf_off is not None:
+        _csf(co, case, b, L, cdata, dek, state["own_table"], state["own_fuses"], None)
+
+    # ---- nxpimage hab parse
+    pdir = os.path.join(wd, "parsed_cli")
+    res = cli.run(o, "hab_parse", ["hab", "parse", "-b", out, "-o", pdir], cwd=cwd)
+    if res is None:
+        return
+    cp = cli.Scoped(o, "hab_parse")
+    cp.check("command", "Success." in res.output, "no_success_message", res.describe())
+    want_present = {"ivt": True, "bdt": True, "dcd": bool(b.dcd), "xmcd": bool(b.xmcd), "csf": bool(flags), "app": True}
+    have = set(os.listdir(pdir)) if os.path.isdir(pdir) else set()
+    for label, present in want_present.items():
+        cp.eq("files", "present:" + label, (label + ".bin") in have, present)
+    seg: dict = {}
+    for label in want_present:
+        if (label + ".bin") in have:
+            seg[label] = cli.read(o, "hab_parse", os.path.join(pdir, label + ".bin"))
+    if seg.get("ivt") is not None:
+        cp.eq("files", "ivt_bytes", seg["ivt"], cdata[:0x20])
+    if seg.get("bdt") is not None:
+        cp.check("files", len(seg["bdt"]) >= 12 and seg["bdt"][:12] == cdata[0x20:0x2C] and not any(seg["bdt"][12:]), "bdt_bytes",
+                 "bdt.bin %s, image %s" % (seg["bdt"].hex(), cdata[0x20:0x2C].hex()))
+    if b.dcd and seg.get("dcd") is not None:
+        cp.eq("files", "dcd_bytes", seg["dcd"], b.dcd)
+    if b.xmcd and seg.get("xmcd") is not None:
+        cp.eq("files", "xmcd_bytes", seg["xmcd"], b.xmcd)
+    if seg.get("app") is not None:
+        stored = cdata[app_off : app_off + len(padded)]
+        got = seg["app"]
+        cp.check("files", got[: len(stored)] == stored and got == cdata[app_off : app_off + len(got)], "app_bytes",
+                 "app.bin: %d bytes, differs from the stored %d bytes (modulo the fill up to the CSF)" % (len(got), len(stored)))
+        if flags == 8 or not flags:
+            cp.check("files", got[: len(b.app)] == b.app, "app_is_input", "app.bin does not start with the application that was given")
+    if flags and seg.get("csf") is not None and L is not None and L.csf_off is not None:
+        cp.eq("files", "csf_bytes", seg["csf"], cdata[L.csf_off : L.csf_off + H.CSF_SPACE])
+
+
+def _layout(o, case, b, data: bytes):
+    """Layout: the independent walker against the inputs. Returns the Layout (None: not a HAB image)."""
+    flags = int(case["flags"])
+    n = len(b.app)
+    padded = b.app + bytes(-n % 16) if flags else b.app
+    app_off = b.ils - b.ivt_offset
+    L = None
+    try:
+        L = H.Layout(data)
+    except H.HabFormatError as exc:
+        o.fail("layout", "format", str(exc))
+    if L is not None:
+        o.eq("layout", "ivt_self", L.self_ptr, b.start + b.ivt_offset)
+        o.eq("layout", "ivt_boot_data", L.boot_data_ptr, L.self_ptr + 0x20)
+        o.eq("layout", "ivt_entry", L.entry, b.reset)
+        o.eq("layout", "bdt_start", L.bdt_start, b.start)
+        o.eq("layout", "bdt_plugin", L.bdt_plugin, 0)
+        if b.dcd:
+            o.eq("layout", "ivt_dcd", L.dcd_ptr, L.self_ptr + 0x40)
+            o.eq("layout", "dcd_bytes", L.dcd_bytes, b.dcd)
+        else:
+            o.eq("layout", "ivt_dcd", L.dcd_ptr, 0)
+        if b.xmcd:
+            o.eq("layout", "xmcd_bytes", data[0x40 : 0x40 + len(b.xmcd)], b.xmcd)
+        if not flags:
+            o.eq("layout", "ivt_csf", L.csf_ptr, 0)
+            o.eq("layout", "app_bytes", data[app_off:], b.app)
+            o.eq("layout", "bdt_length", L.bdt_length, b.ivt_offset + len(data))
+        else:
+            o.check("layout", L.csf_off is not None, "ivt_csf", "authenticated image without CSF pointer")
+            if L.csf_off is not None:
+                o.check("layout", L.csf_off >= app_off + len(padded), "csf_overlaps_app", "CSF at %#x, application ends at %#x" % (L.csf_off, app_off + len(padded)))
+                o.check("layout", len(data) > L.csf_off, "csf_outside", "CSF pointer %#x beyond the image end %#x" % (L.csf_off, len(data)))
+                o.eq("layout", "bdt_length", L.bdt_length, b.ivt_offset + len(data) + (H.KEYBLOB_SPACE if flags == 0xC else 0))
+            if flags == 8:
+                o.eq("layout", "app_bytes", data[app_off : app_off + len(padded)], padded)
+            else:
+                o.check("layout", data[app_off : app_off + len(padded)] != padded, "app_not_encrypted", "application stored in plain text")
+    return L
+
+
+def _csf(o, case, b, L, data: bytes, dek, own_table, own_fuses, hab) -> None:
+    """CSF interpretation of an authenticated image: SRK table and fuse value, installed keys, both signatures, coverage of
+    the authenticated blocks, AES-CCM decryption.  `hab` is the container object the image came from (None for a file)."""
+    flags = int(case["flags"])
+    n = len(b.app)
+    padded = b.app + bytes(-n % 16) if flags else b.app
+    app_off = b.ils - b.ivt_offset
+    r = H.run_csf(L, dek)
     seen = set()
     for kind, detail in r.problems:
         sub = _sub_of(kind)
@@ -690,9 +797,10 @@ def _run_in(wd: str, case, o: Oracle) -> None:
         o.eq("srk_hash", "table_in_image", r.srk_table["raw"], own_table)
         o.eq("srk_hash", "fuse_value", r.fuse_hash, own_fuses)
         o.eq("srk_hash", "source_index", r.srk_index, int(case["pki"]["src"]))
-        with o.spsdk("srk_hash", "reported"):
-            ins = [c for c in hab.csf_segment.segment.commands if getattr(c, "certificate_ref", None) is not None and hasattr(c.certificate_ref, "export_fuses")]
-            o.eq("srk_hash", "spsdk_reported_fuses", ins[0].certificate_ref.export_fuses() if ins else None, r.fuse_hash)
+        if hab is not None:
+            with o.spsdk("srk_hash", "reported"):
+                ins = [c for c in hab.csf_segment.segment.commands if getattr(c, "certificate_ref", None) is not None and hasattr(c.certificate_ref, "export_fuses")]
+                o.eq("srk_hash", "spsdk_reported_fuses", ins[0].certificate_ref.export_fuses() if ins else None, r.fuse_hash)
         src_cert = x509util.Cert(b.mat["srk_der"][int(case["pki"]["src"])])
         o.check("srk_hash", r.keys.get(0, {}).get("key") == src_cert.key, "installed_srk", "slot 0 does not hold SRK %d" % int(case["pki"]["src"]))
     else:
@@ -820,5 +928,6 @@ def calibrate(ctx) -> None:
 
 def parts(ctx):
     run = functools.partial(_run, ctx.work)
+    cli.preload()
     return [HypPart("image", _case(ctx.tier == "thorough"), run, {"quick": 480, "thorough": 16000}),
             pins.part(["hab"], 30)]  # initial load sizes per boot memory
